@@ -63,3 +63,37 @@ Proof.
     + eexists; split; [reflexivity|assumption].
   - eexists; split; [reflexivity|assumption].
 Qed.
+
+(* [BitsCode] the same rule, keeping the invariant at the exit: when code follows the loop (a second loop, a tail
+   append) the client needs the invariant AND the reason the loop ended — the condition evaluated to false in the exit
+   state, or the body broke out (Brk, chosen by the client). *)
+Lemma while_exit {S R} (c : S -> M bool) (b : S -> M (ctl S R)) (p : S -> M S)
+  (Inv : nat -> S -> Prop) (Brk : S -> Prop) (Rt : R -> Prop) :
+  (forall m s, Inv m s ->
+     match c s with
+     | Ret false => True
+     | Ret true =>
+         match b s with
+         | Ret (Next s1) => match p s1 with Ret s2 => exists m', (m' < m)%nat /\ Inv m' s2 | _ => False end
+         | Ret (Break s1) => Brk s1
+         | Ret (Return r) => Rt r
+         | _ => False
+         end
+     | _ => False
+     end) ->
+  forall fuel m s, Inv m s -> (m < fuel)%nat ->
+  exists out, while fuel c b p s = Ret out /\
+    match out with
+    | inl s' => (exists m', Inv m' s' /\ c s' = Ret false) \/ Brk s'
+    | inr r => Rt r
+    end.
+Proof.
+  intros Hstep. induction fuel as [|f IH]; intros m s Hi Hm; [lia|].
+  rewrite while_step. pose proof (Hstep m s Hi) as Hs. unfold bind.
+  destruct (c s) as [[|]| |] eqn:Ec; try contradiction.
+  - destruct (b s) as [[s1|s1|r]| |]; try contradiction.
+    + destruct (p s1) as [s2| |]; try contradiction. destruct Hs as (m' & Hlt & Hi'). apply (IH m'); [assumption|lia].
+    + eexists; split; [reflexivity|]. right. assumption.
+    + eexists; split; [reflexivity|assumption].
+  - eexists; split; [reflexivity|]. left. exists m. split; assumption.
+Qed.
